@@ -186,3 +186,62 @@ impl SrcKind {
         }
     }
 }
+
+/// Like `program_body` but with a probe after every instruction (`build_probed`).
+pub fn program_body_probed(prog: Program, input: Vec<i64>, src: SrcKind, cfg: JobCfg) -> crate::explore::Body {
+    Arc::new(move || {
+        let prog = prog.clone();
+        let input = input.clone();
+        let src = src.clone();
+        let batch = cfg.batch;
+        let cores = cfg.layout.total_cores() as usize;
+        let job: Arc<dyn Fn(usize, StreamContext) + Send + Sync> = Arc::new(move |host, env| {
+            let s = match &src {
+                SrcKind::Iter => erase(env.stream_iter(input.clone().into_iter()).batch_mode(batch)),
+                SrcKind::Par(assign) => {
+                    let mut scripts = vec![vec![]; cores];
+                    for (i, x) in input.iter().enumerate() {
+                        scripts[assign[i] % cores].push(renoir::operator::StreamElement::Item(*x));
+                    }
+                    erase(
+                        env.stream(ScriptSource::new(scripts, renoir::Replication::Unlimited))
+                            .batch_mode(batch),
+                    )
+                }
+            };
+            let outs = crate::program::build_probed(s, &prog);
+            env.execute_blocking();
+            for (i, o) in outs.into_iter().enumerate() {
+                log_sink(SINK_TAGS[i], host, o.get());
+            }
+        });
+        let res = run_hosts(&cfg.layout, job);
+        for (h, r) in res.into_iter().enumerate() {
+            if let Some(p) = r {
+                crate::rt::log(Ev::Text("host-panic", format!("{h}: {p}")));
+            }
+        }
+    })
+}
+
+/// The grammar of C05 at every probe, for every replica.
+pub fn probe_grammar(logv: &[Ev]) -> Result<(), Fail> {
+    use std::collections::BTreeMap;
+    let mut seqs: BTreeMap<(u32, (u64, u64, u64)), Vec<(u8, Option<i64>)>> = BTreeMap::new();
+    for e in logv {
+        if let Ev::Probe(id, coord, k, ts, _) = e {
+            if *k != crate::kit::K_FB {
+                seqs.entry((*id, *coord)).or_default().push((*k, *ts));
+            }
+        }
+    }
+    for ((id, coord), sh) in &seqs {
+        if let Some((sig, msg)) = crate::e2::grammar(sh) {
+            return Err(Fail::new(
+                format!("c05-job-grammar-{sig}"),
+                format!("probe {id} on replica {:?}: {msg}; sequence of kinds {:?}", coord, sh.iter().map(|x| x.0).collect::<Vec<_>>()),
+            ));
+        }
+    }
+    Ok(())
+}
